@@ -7,6 +7,14 @@ V = "/verif"
 ALL = ["C%02d" % i for i in range(1, 21)]
 
 CHECKS = {
+ "C01": dict(level="exploration",
+   text="Bounded exhaustive input-shape exploration of the six decoding entry points under recover and a hang watchdog: the full single-field definition space the property names (message x field number x base-type byte x size x byte order; quick tier restricts field numbers and unknown base types as stated in evidence), header space, record-header space with every cut, and the corpus with cuts. Totality is a safety property over inputs, so exhaustive enumeration of the structured families is the strongest decision available short of proof.",
+   note="Assumes: readers that never make progress are out of scope; arbitrary unstructured garbage is not enumerated. Panics are caught with recover, hangs with a 30 s watchdog.",
+   technique="bounded exhaustive input enumeration on the real decoder (definition / header / record-header / cut spaces)", ref="3 C01"),
+ "C15": dict(level="exploration",
+   text="Exhaustive enumeration of every (message, field) entry of the compiled-in profile, every struct field and every container member, statically (reflection against the exported tables) and dynamically (one-field stream decoded, located, re-encoded).",
+   note="Trusted: verif-tagged read-only exports mirror the tables; reference mapping base type -> Go kind / invalid value is written from the FIT base-type table.",
+   technique="exhaustive configuration enumeration of the profile tables with reflection + decode/encode confirmation", ref="3 C15"),
  "C14": dict(level="model_checking",
    text="Complete explicit-state exploration of the checksum's transition system on the real code: all 65536 register states x 256 bytes against a bitwise CRC-16/ARC, plus Reset/residue from every state and all write partitions of short and long strings. The state space is finite and fully enumerated, so within the stated reference this is a complete decision.",
    note="Trusted: the 10-line bitwise reference CRC; Go runtime. States are reached through the public New().Write only.",
